@@ -30,6 +30,9 @@ TYPES = ['counter', 'gauge', 'histogram', 'summary']
 HOST = '''"""c17 host"""
 FACTOR = 2.5
 REGION = "eu-1"
+n = 1000.0
+label = "module-level"
+items = ()
 
 
 def weight(v):
